@@ -220,6 +220,8 @@ class Interp:
 
     def const_item(self, path, ty):
         c = self.facts.consts.get(path)
+        if c is None and path.startswith('noodles_vcf::'):
+            return Agg('sym:const:' + path.split('::')[-1], 0, [])
         if c is None and path.endswith('SizedTypeProperties::SIZE'):
             return BV(64, 8)       # only compared with 0 in the null-pointer check
         if c is None and path.endswith('SizedTypeProperties::ALIGN'):
@@ -613,6 +615,11 @@ class Interp:
                 if name.endswith(suf):
                     m = mm
                     break
+        if m is None and target_body is None and name:
+            for pre, mm in SUFFIX_PREFIX_MODELS.items():     # whole foreign crates modelled symbolically (noodles_vcf)
+                if pre in name or pre in (cal.full or ''):
+                    m = mm
+                    break
         if m is not None:
             return m(self, args, t, cal)
         if target_body is not None:
@@ -711,6 +718,7 @@ def Operand_from(j):
 # ====================================================================== models
 MODELS = {}
 SUFFIX_MODELS = {}
+SUFFIX_PREFIX_MODELS = {}
 FALLBACK = {}
 
 
@@ -1179,7 +1187,7 @@ def m_string_insert(I, a, t, c):
 @model('std::string::String::chars', 'core::str::<impl str>::chars')
 def m_chars(I, a, t, c):
     s = deref_all(I, a[0])
-    return Agg('iter', 0, [list(s.chars), 0])
+    return Agg('iter', 0, [[BV(32, ord(ch)) if isinstance(ch, str) else ch for ch in s.chars], 0])
 
 
 @model('<std::string::String as std::ops::Deref>::deref')
@@ -2245,7 +2253,8 @@ def m_slice_sort(I, a, t, c):
     cell, path, s, n = _slice(I, a[0])
     v = I.load(RefV(cell, path))
     f = list(v.fields)
-    f[s:s + n] = sorted(f[s:s + n], key=lambda x: I.conc(x))
+    from . import models_io as _mio
+    f[s:s + n] = sorted(f[s:s + n], key=lambda x: _mio._ordkey(I, x))
     I.store(RefV(cell, path), Agg('array', 0, f))
     return UNIT
 
@@ -2756,3 +2765,4 @@ def m_par_collect(I, a, t, c):
     return m_collect(I, a, t, c)
 
 from . import models_io  # noqa: E402,F401  (registers formatting / output / concurrency models)
+from . import models_vcf  # noqa: E402,F401  (symbolic noodles_vcf builders)
